@@ -87,12 +87,6 @@ _NUMERIC_DT = list(_INT_RANGES) + list(_FLOAT_WIDTH) + list(_BOOLS)
 _ALL_DT = _NUMERIC_DT + list(_STRS)
 
 _ASCII = "".join(chr(c) for c in range(32, 127))
-_text = st.one_of(
-    st.text(alphabet=_ASCII, max_size=8),
-    st.text(alphabet="abc <!None>", max_size=9),
-    st.sampled_from(["", " ", "a", "<!None!>", "fuel", "A1"]),
-    st.text(alphabet=_ASCII + "éΩ", min_size=1, max_size=4),
-)
 
 
 def _weighted(*pairs):
@@ -100,6 +94,18 @@ def _weighted(*pairs):
     strats = [s_ for _w, s_ in pairs]
     index = [i for i, (w, _s) in enumerate(pairs) for _ in range(w)]
     return st.sampled_from(index).flatmap(lambda i: strats[i])
+
+
+_text = _weighted(
+    (4, st.text(alphabet=_ASCII, max_size=8)),
+    (2, st.text(alphabet="abc <!None>", max_size=9)),
+    (2, st.sampled_from(["", " ", "a", "<!None!>", "fuel", "A1"])),
+    # text that ASCII byte strings cannot hold (Latin-1 supplement, BMP symbols, astral): to be refused at write time,
+    # never stored as something else
+    (1, st.sampled_from(["Zr\u20134", "UO\u2082", "5\u00b5m gap", "\u00e9", "na\u00efve", "\u03a9", "\U0001d6fd", "\u00a0", "\u00ff", "fuel\u2122"])),
+    (1, st.text(alphabet=st.one_of(st.characters(min_codepoint=0xA0, max_codepoint=0xFF), st.characters(min_codepoint=0x100, max_codepoint=0xFFFF, blacklist_categories=("Cs",)),
+                                   st.characters(min_codepoint=0x10000, max_codepoint=0x1FFFF), st.sampled_from(list("abcXY 019"))), min_size=1, max_size=5)),
+)
 
 
 def _ints(dt):
@@ -134,14 +140,17 @@ def _entries(value, lo=1, hi=12, none_weight=1):
     return _weighted((15, some), (1, st.lists(st.none(), min_size=lo, max_size=4)))
 
 
-_FORMS = st.sampled_from(["l", "l", "a", "a", "t"])
+_FORMS = st.sampled_from(["l", "l", "a", "a", "a", "t"])
+# memory layout of ndarray entries (the value is the logical array; the layout must not matter): C, Fortran order,
+# transposed view, strided slice of a wider array, negative strides, broadcast view
+_LAYOUTS = st.sampled_from(["C", "C", "C", "F", "T", "stride", "neg", "bcast"])
 _DIM = st.sampled_from([1, 1, 2, 2, 3])
 _DIM0 = st.sampled_from([0, 1, 1, 2, 2, 3])
 
 
 def _seq(dt, dims=_DIM0):
     return st.fixed_dictionaries(
-        {"sh": st.lists(dims, min_size=3, max_size=3), "pool": st.lists(_scalar(dt), min_size=1, max_size=6), "f": _FORMS}
+        {"sh": st.lists(dims, min_size=3, max_size=3), "pool": st.lists(_scalar(dt), min_size=1, max_size=6), "f": _FORMS, "lay": _LAYOUTS}
     )
 
 
@@ -196,7 +205,8 @@ def _col_inner(dt):
     )
 
 
-_KEYS = st.one_of(st.sampled_from(["a", "b", "c", "U235", "PU239", "k"]), st.text(alphabet="abcXYZ019_", min_size=1, max_size=6))
+_KEYS = _weighted((6, st.sampled_from(["a", "b", "c", "U235", "PU239", "k"])), (6, st.text(alphabet="abcXYZ019_", min_size=1, max_size=6)),
+                  (1, st.sampled_from(["UO\u2082", "\u00b5", "Zr\u20134"])))
 
 
 def _col_dict():
@@ -243,7 +253,7 @@ def _col_mixed_seq(narrow_first=False):
     val = st.one_of(st.integers(-(2**53), 2**53), st.integers(-9, 9), st.floats(allow_nan=False), st.integers(-8, 8).map(lambda k: k / 2.0))
     # "edt": the row is an ndarray of that real width (values rounded to it when the row is built); "py" = nested list
     seq = st.fixed_dictionaries({"sh": st.lists(_DIM0, min_size=3, max_size=3), "pool": st.lists(val, min_size=1, max_size=6), "f": st.sampled_from(["l", "l", "t"]),
-                                 "edt": st.sampled_from(["py", "py", "py", "float32", "float32", "float16", "float64"])})
+                                 "edt": st.sampled_from(["py", "py", "py", "float32", "float32", "float16", "float64"]), "lay": _LAYOUTS})
     ents = _entries(seq)
     fixed = st.booleans()
     if narrow_first:
@@ -288,6 +298,16 @@ def column_strategy(classes=None):
         opts.append((1, narrow.flatmap(_col_scalar)))
     if classes is None or "fixed" in classes:
         opts.append((1, narrow.flatmap(_col_fixed)))
+    # text columns without unset entries (with one they are always refused): ASCII text must round trip, text that ASCII
+    # byte strings cannot hold must be refused at write time
+    strs = st.sampled_from(["py:str", "py:str", "str"])
+    if classes is None or "scalar" in classes:
+        opts.append((1, strs.flatmap(lambda dt: st.fixed_dictionaries(
+            {"cls": st.just("scalar"), "dt": st.just(dt), "e": st.lists(_text, min_size=1, max_size=6)}))))
+    if classes is None or "fixed" in classes:
+        opts.append((1, strs.flatmap(lambda dt: st.fixed_dictionaries(
+            {"cls": st.just("fixed"), "dt": st.just(dt), "ndim": st.sampled_from([1, 1, 2]), "shape": st.lists(_DIM, min_size=3, max_size=3),
+             "e": st.lists(_seq(dt), min_size=1, max_size=4)}))))
     if classes is None or "mixed" in classes:
         opts.append((1, _col_mixed(narrow_first=True)))
     if classes is None or "mixed-seq" in classes:
@@ -345,10 +365,30 @@ def _mk_seq(dt, desc, shape):
         arr = np.array(nested, dtype=_np_dtype(dt))
         if arr.shape != tuple(shape):  # zero-size inner dimensions collapse in nested lists
             arr = arr.reshape(shape)
-        return arr
+        return _relayout(arr, desc.get("lay", "C"))
     flat = [_mk_scalar(dt, pool[i % len(pool)]) for i in range(size)]
     nested = _nest(flat, shape)
     return tuple(nested) if form == "t" else nested
+
+
+def _relayout(arr, lay):
+    """An array with the same logical content (except 'bcast': every row equals the first) in another memory layout."""
+    np = _np()
+    if lay == "C" or arr.size == 0:
+        return arr
+    if lay == "F":
+        return np.asfortranarray(arr)
+    if lay == "T":
+        return np.ascontiguousarray(arr.T).T  # transposed view of a C array
+    if lay == "stride":
+        wide = np.zeros(arr.shape[:-1] + (2 * arr.shape[-1],), dtype=arr.dtype)
+        wide[..., ::2] = arr
+        return wide[..., ::2]
+    if lay == "neg":
+        return np.ascontiguousarray(arr[::-1])[::-1]
+    if lay == "bcast":
+        return np.broadcast_to(arr[0], arr.shape)
+    return arr
 
 
 def _mk_inner_ragged(dt, desc):
@@ -791,6 +831,12 @@ def _class_labels(out, col, values, route):
         tags.append("non-default-dtype")
     if f["dict"]:
         tags.append("dict")
+    if any(isinstance(v, np.ndarray) and v.ndim >= 1 and v.size > 1 and not (v.flags["C_CONTIGUOUS"] and v.flags["OWNDATA"] or v.flags["C_CONTIGUOUS"] and v.ndim == 1 and v.strides[0] > 0) for v in values):
+        out.label("has:non-C-layout-array")
+        if any(isinstance(v, np.ndarray) and v.ndim >= 2 and not v.flags["C_CONTIGUOUS"] for v in values):
+            out.label("has:non-C-layout-nd-array")
+    if any(isinstance(x, str) and not x.isascii() for v in values for x in (_flatten(v) if isinstance(v, (list, tuple)) else (list(v.ravel()) if isinstance(v, np.ndarray) and v.dtype.kind == "U" else [v]))):
+        out.label("has:non-ascii-text")
     if col["cls"].startswith("mixed"):
         tags.append("mixed-kind")
     for t in tags:
@@ -1395,9 +1441,18 @@ def l2_execute(case):
     values = build_column(col, len(objs))
     if features(values)["placeholder"]:
         values = avoid_documented_sentinel(values, out)
+    assign_none = case["assignNone"]
+    if not assign_none and col["dt"] in _STRS:
+        # an object left unassigned keeps the value the parameter already has (0.0 for some shapes' massHmBOL): next to
+        # text that would be a text/number column of the harness' own making (np.array() turns it into text before armi
+        # looks at it; no layer generates that shape) - assign None instead
+        kept = [o.p[pname] for o, v in zip(objs, values) if v is None]
+        if any(k_ is not None and not isinstance(k_, str) for k_ in kept):
+            assign_none = True
+            out.label("forced-assign-none:text-next-to-numeric-default")
     try:
         for o, v in zip(objs, values):
-            if v is None and not case["assignNone"]:
+            if v is None and not assign_none:
                 continue
             o.p[pname] = v
     except (ValueError, TypeError):
